@@ -135,6 +135,14 @@ fn translate(genes: &Value) -> Value {
 }
 
 /// spec -> impl: every genome TLC explored.
+/// `v`, or a note of its depth when it is nested deeper than `limit` JSON levels (readers of the
+/// output recurse; a correct translation of the genomes used here stays far below the limits)
+fn shallow(v: Value, limit: i64) -> Value {
+    let text = v.to_string();
+    let depth = text.bytes().fold((0i64, 0i64), |(d, m), b| match b { b'[' | b'{' => (d + 1, m.max(d + 1)), b']' | b'}' => (d - 1, m), _ => (d, m) }).1;
+    if depth > limit { json!({"nested_too_deep_to_print": depth, "bytes": text.len()}) } else { v }
+}
+
 pub fn replay(args: &[String]) -> i32 {
     let cases = read_ndjson(arg_req(args, "--cases"));
     let mut out = Out::create(arg_req(args, "--out"));
@@ -145,9 +153,7 @@ pub fn replay(args: &[String]) -> i32 {
         if observed != case["prog"] {
             bad += 1;
             // a wrong translation can be nested arbitrarily deep: report its depth instead of the tree
-            let text = observed.to_string();
-            let depth = text.bytes().fold((0i64, 0i64), |(d, m), b| match b { b'[' | b'{' => (d + 1, m.max(d + 1)), b']' | b'}' => (d - 1, m), _ => (d, m) }).1;
-            let observed = if depth > 120 { json!({"nested_too_deep_to_print": depth, "bytes": text.len()}) } else { observed };
+            let observed = shallow(observed, 120);
             out.line(&json!({"kind": "mismatch", "case": case, "observed": observed}));
             // enough said: a translation that carries state from genome to genome gets slower and slower
             if bad >= 40 {
@@ -206,7 +212,7 @@ pub fn trace(args: &[String]) -> i32 {
             })
             .collect();
         let genes = Value::Array(genes);
-        let prog = translate(&genes);
+        let prog = shallow(translate(&genes), 700);
         out.line(&json!({"ev": "parse", "run": run, "genes": genes, "prog": prog}));
         if run % 5 == 2 {
             // the TWIN: every close marker and block opener replaced by its look-alike (prints the same,
@@ -227,7 +233,7 @@ pub fn trace(args: &[String]) -> i32 {
                 })
                 .collect();
             let twin = Value::Array(twin);
-            let prog = translate(&twin);
+            let prog = shallow(translate(&twin), 700);
             out.line(&json!({"ev": "parse", "run": run, "genes": twin, "prog": prog}));
         }
         // the printed form (Display of Plushy): tokens "i" / "{" / "}" separated by single spaces
